@@ -592,7 +592,9 @@ def run(tier):
     cov["anchor_selftest"] = "skipped"
     if os.environ.get("C01_ANCHOR", "1") != "0" and shutil.which("gfortran"):
         from pv import c01_anchor
-        base = [p for p in progs if "random" not in p.tags]
+        # (the static|* programs are outside FortranSem's semantics - no static storage, no
+        # initial values - and are decided by the static clause WriterKeepsStatic alone)
+        base = [p for p in progs if "random" not in p.tags and not p.pid.startswith("static|")]
         rest = [p for p in progs if "random" in p.tags]
         sample = base[::12] if tier == "quick" else base + rest[::10]
         cov["anchor_selftest"] = c01_anchor.anchor(sample, workers=nw)
